@@ -25,6 +25,7 @@ import (
 	"net"
 	"strings"
 	"sync"
+	"sync/atomic"
 	"time"
 
 	mqPkts "github.com/eclipse/paho.mqtt.golang/packets"
@@ -55,6 +56,9 @@ type handler1 struct {
 	transactions     *transactions.TransactionStore
 	// for testing
 	mockupDialFunc func() net.Conn
+	// Set (atomically) once the topicID sequence has wrapped around. Every ID
+	// the sequence returns from then on was already handed out in this session.
+	topicIDsExhausted uint32
 }
 
 const (
@@ -484,8 +488,12 @@ func (h *handler1) mqttReceiveLoop(ctx context.Context) error {
 }
 
 func (h *handler1) newTopicID() (uint16, error) {
+	if atomic.LoadUint32(&h.topicIDsExhausted) != 0 {
+		return 0, ErrTopicIDsExhausted
+	}
 	topicID, overflow := h.topicID.Next()
 	if overflow {
+		atomic.StoreUint32(&h.topicIDsExhausted, 1)
 		return 0, ErrTopicIDsExhausted
 	}
 	for {
@@ -493,6 +501,7 @@ func (h *handler1) newTopicID() (uint16, error) {
 			break
 		}
 		if topicID, overflow = h.topicID.Next(); overflow {
+			atomic.StoreUint32(&h.topicIDsExhausted, 1)
 			return 0, ErrTopicIDsExhausted
 		}
 	}
